@@ -170,6 +170,7 @@ theorem noFin_mem_sorted (evs : List SEvent) (h : NoFin evs) (pref suff : List S
     (hs : Heap.pySorted SEvent.lt evs = pref ++ cur :: suff) : cur.ev.etype ≠ ET.taskFinished :=
   h cur (mem_pySorted evs cur (by rw [hs]; simp))
 
+set_option maxHeartbeats 800000 in
 theorem handleSchedulerFinish_rspec (n : Int) (ex : List SEvent) (ev : SEvent) :
     KeepsR n ex (handleSchedulerFinish ev) := by
   have h_mk := mkEvent_rspec n ex
@@ -187,6 +188,7 @@ theorem handleSchedulerFinish_rspec (n : Int) (ex : List SEvent) (ev : SEvent) :
     | etype_close
     | (intro s _ _ h3 _ _; rw [h3]; decide)
     | (rs_hyps h => rs_hyps h2 => exact ⟨h.1, NoFin.append h2.2 h.2⟩)
+    | (rs_hyps h => rs_hyps h2 => exact ⟨h.1, NoFin.append (NoFin.editPending h2.2 _ _) h.2⟩)
     | (rs_hyps h => rs_hyps h2 => exact noFin_mem_sorted _ h.2 _ _ _ h2)
 
 end ErdosVerif.Model.Sim
